@@ -181,7 +181,7 @@ struct C15 : Profile {
     json ops = json::array(); int n = (int)r.range(6, 40);
     static const std::vector<double> W = {/*0 new ctx*/ 0.6, /*1 clone*/ 1, /*2 free ctx*/ 0.5, /*3 purge*/ 0.7, /*4 new value*/ 3, /*5 free value*/ 1, /*6 assign*/ 1, /*7 inspect value*/ 1.5,
                                           /*8 register+store*/ 3, /*9 find+load*/ 3, /*10 parse expr*/ 3, /*11 eval expr*/ 3, /*12 free expr*/ 0.7, /*13 parse exe*/ 5, /*14 execute*/ 5,
-                                          /*15 execute2*/ 1.5, /*16 free exe*/ 0.7, /*17 drop returned*/ 1, /*18 reset stop*/ 0.5, /*19 purge working*/ 0.5, /*20 trace toggle*/ 0.2, /*21 store twice / bad store*/ 0.7, /*22 parse a damaged generated program*/ 4};
+                                          /*15 execute2*/ 1.5, /*16 free exe*/ 0.7, /*17 drop returned*/ 1, /*18 reset stop*/ 0.5, /*19 purge working*/ 0.5, /*20 trace toggle*/ 0.2, /*21 store twice / bad store*/ 0.7, /*22 parse a damaged generated program*/ 4, /*23 assign through a loaded variable, then a script copies it*/ 1.5};
     for (int i = 0; i < n; ++i) ops.push_back(json::array({(int)r.weighted(W), (long)r.below(1000), (long)r.below(1000), (long)r.below(1000)}));
     plan["ops"] = ops;
     return plan;
@@ -353,6 +353,29 @@ struct C15 : Profile {
       case 17: { int ci = pick_ctx(a); bloc_value* rv = bloc_drop_returned(H.ctxs[ci].h); if (rv) bloc_free_value(rv); break; }
       case 18: { int ci = pick_ctx(a); bloc_reset_stop(H.ctxs[ci].h); H.ctxs[ci].stop_pending = false; break; }
       case 19: { int ci = pick_ctx(a); for (auto it = leases.begin(); it != leases.end();) { if (it->ctx == ci && it->what.compare(0, 6, "result") == 0) { H.check_value(it->v, it->m, it->what + " (last valid epoch)"); it = leases.erase(it); } else ++it; } bloc_ctx_purge_working_mem(H.ctxs[ci].h); break; }
+      case 23: { // the documented way to change a variable's content from the host: bloc_assign_* on the library-owned value of the variable; scripts must then read what was assigned
+                int ci = pick_ctx(a); MCtx& c = H.ctxs[ci]; if (c.vars.empty()) break;
+                std::vector<std::string> cand; for (auto& kv : c.vars) if (kv.second.known && kv.second.ndim == 0 && (kv.second.major == LITERAL || kv.second.major == TABCHAR) && kv.first != "ZC") cand.push_back(kv.first);
+                if (cand.empty()) break; const std::string name = cand[b % cand.size()]; MV& mv = c.vars[name];
+                bloc_symbol* s = bloc_ctx_find_symbol(c.h, name.c_str()); if (!s) { H.fail("C15/find-symbol-null", name); break; }
+                end_leases(ci);
+                bloc_value* lv = bloc_ctx_load_variable(c.h, s); if (!lv) { H.fail("C15/load-returned-null", name); break; }
+                std::string nv = "hv" + std::to_string(c3); bool ok;
+                if (c3 % 7 == 0) { bloc_assign_null(lv); ok = true; mv = mv_null(mv.major); }
+                else if (mv.major == LITERAL) { ok = bloc_assign_literal(lv, nv.c_str()) == bloc_true; if (ok) mv = mv_str(nv); }
+                else { ok = bloc_assign_tabchar(lv, nv.data(), (unsigned)nv.size()) == bloc_true; if (ok) mv = mv_raw(nv); }
+                if (!ok) { H.fail("C15/assign-type-rule", "bloc_assign_* refused the matching type of variable " + name); break; }
+                ++res.probes["assigned_through_loaded_variable"];
+                bloc_reset_stop(c.h); c.stop_pending = false;
+                std::string text = "ZC = " + name + ";\n";
+                bloc_executable* x = bloc_parse_executable(c.h, text.c_str(), nullptr);
+                if (!x) { H.fail("C15/program-rejected", text + ": " + bloc_strerror()); break; }
+                bool ran; { StepGuard g(100); ran = bloc_execute(x) == bloc_true; }
+                bloc_free_executable(x);
+                if (!ran) { H.fail("C15/run-failed", text + ": " + bloc_strerror()); break; }
+                c.vars["ZC"] = mv;
+                for (const char* nm : {name.c_str(), "ZC"}) { bloc_symbol* s2 = bloc_ctx_find_symbol(c.h, nm); if (!s2) { H.fail("C15/find-symbol-null", nm); break; } H.check_value(bloc_ctx_load_variable(c.h, s2), c.vars[nm], std::string("variable ") + nm + " after the host assigned it and a script copied it"); }
+                break; }
       case 20: { int ci = pick_ctx(a); bool on = bloc_ctx_trace(H.ctxs[ci].h) == bloc_true; (void)on; bloc_ctx_enable_trace(H.ctxs[ci].h, bloc_false); if (bloc_ctx_trace(H.ctxs[ci].h) != bloc_false) H.fail("C15/trace-flag", ""); break; }
       }
       } catch (std::exception& e) { H.fail(std::string("C15/exception-crossed-the-c-api:") + typeid(e).name(), std::string("op ") + std::to_string(op) + ": " + e.what()); break; }
